@@ -59,7 +59,6 @@
 /// Calling this function on incompatible CPUs results in `SIGILL`.
 #[target_feature(enable = "fma")]
 pub fn reim_from_znx_i64_bnd50_fma(res: &mut [f64], a: &[i64]) {
-    #[cfg(debug_assertions)]
     {
         assert_eq!(res.len(), a.len());
         const BOUND: i64 = (1i64 << 50) - 1;
@@ -122,7 +121,6 @@ pub fn reim_from_znx_i64_bnd50_fma(res: &mut [f64], a: &[i64]) {
 /// Converts `(a[i] & mask)` into `f64` exactly for values bounded by `|x| < 2^50`.
 #[target_feature(enable = "fma")]
 pub fn reim_from_znx_i64_masked_bnd50_fma(res: &mut [f64], a: &[i64], mask: i64) {
-    #[cfg(debug_assertions)]
     {
         assert_eq!(res.len(), a.len());
         const BOUND: i64 = (1i64 << 50) - 1;
@@ -189,7 +187,6 @@ pub fn reim_from_znx_i64_masked_bnd50_fma(res: &mut [f64], a: &[i64], mask: i64)
 #[allow(dead_code)]
 #[target_feature(enable = "avx2,fma")]
 pub fn reim_to_znx_i64_bnd63_avx2_fma(res: &mut [i64], divisor: f64, a: &[f64]) {
-    #[cfg(debug_assertions)]
     {
         assert_eq!(res.len(), a.len())
     }
@@ -350,7 +347,6 @@ pub fn reim_to_znx_i64_assign_bnd63_avx2_fma(res: &mut [f64], divisor: f64) {
 #[target_feature(enable = "fma")]
 #[allow(dead_code)]
 pub fn reim_to_znx_i64_avx2_bnd50_fma(res: &mut [i64], divisor: f64, a: &[f64]) {
-    #[cfg(debug_assertions)]
     {
         assert_eq!(res.len(), a.len())
     }
